@@ -39,8 +39,12 @@ def text_lines(rng, maxn=5, first_normal=True):
     return out
 
 
+TAB_TEXT = False        # ordinary text lines of formatted values indented with a tab instead of a space (legal deb822)
+
+
 def render_tl(tl):
-    return [' ' + x[1] if x[0] == 'N' else ' .' if x[0] == 'B' else '  ' + x[1] for x in tl]
+    ind = '\t' if TAB_TEXT else ' '
+    return [ind + x[1] if x[0] == 'N' else ' .' if x[0] == 'B' else '  ' + x[1] for x in tl]
 
 
 def decode_tl(tl):
